@@ -12,10 +12,12 @@ Bad == 99                       \* a value the delegate's trait (Int) rejects
 Absent == 1000                  \* no local value
 \* deferring attribute -> [kind, target name on the delegate]
 \*   same name | explicit name | 'pre_*' | '*' with __prefix__ = 'pp_'
-Attrs == {"a", "b", "c", "e", "pa", "pb", "pc", "pe"}
-Kind(x) == IF x \in {"a", "b", "c", "e"} THEN "delegate" ELSE "prototype"
+\*   da / dpa: given to the deferring OBJECT at run time with add_trait (explicit names) - deferred traits like the others
+Attrs == {"a", "b", "c", "e", "pa", "pb", "pc", "pe", "da", "dpa"}
+Kind(x) == IF x \in {"a", "b", "c", "e", "da"} THEN "delegate" ELSE "prototype"
 Target(x) == CASE x = "a" -> "a" [] x = "b" -> "tb" [] x = "c" -> "pre_c" [] x = "e" -> "pp_e"
                [] x = "pa" -> "pa" [] x = "pb" -> "ptb" [] x = "pc" -> "pre_pc" [] x = "pe" -> "pp_pe"
+               [] x = "da" -> "xa" [] x = "dpa" -> "xpa"
 Targets == {Target(x) : x \in Attrs}
 
 \* state: [par : 0..2, val : [Cands -> [Targets -> Int]], local : [Attrs -> Int | Absent]]
